@@ -16,6 +16,7 @@ REGISTRY = {
     "C03": "kverif.props.codec:run_c03",
     "C05": "kverif.props.codec:run_c05",
     "C06": "kverif.props.faults:run_c06",
+    "C07": "kverif.props.stream:run_c07",
     "C10": "kverif.props.malformed:run_c10",
     "C17": "kverif.props.records:run_c17",
     "C18": "kverif.props.records:run_c18",
